@@ -271,6 +271,12 @@ func c03Run(r *runCtx, id string, f []string) {
 // ---- generator -----------------------------------------------------------------------------
 
 var c03Hand = []string{
+	// zero divisors of every spelling and type, with constant and non-constant dividends, alone and
+	// nested in larger expressions
+	"gauge g\n/(\\d+)/ { g = $1 / 0.0 }\n", "gauge g\n/(\\d+)/ { g = $1 % 0.0 }\n", "gauge g\n/(\\d+)/ { g = 1 + $1 / .0 }\n", "gauge g\n/(\\d+)/ { g = int($1 / 0e0) }\n",
+	"counter c by k\n/(\\d+)/ { c[$1 / 0.0]++ }\n", "counter c\n/(\\d+)/ { ~($1 / 0.0) { c++ } }\n", "gauge g\n/(\\d+)/ { $1 / 0.0 }\n", "gauge g\n/(\\d+\\.\\d+)/ { g = $1 / 0 }\n",
+	"gauge g\n/(\\d+)/ { g = $1 / (1 - 1) }\n", "gauge g\n/(\\d+)/ { g = $1 / -0 }\n", "gauge g\n/(\\d+)/ { g = $1 % -0.0 }\n", "gauge g\ngauge h\n/(\\d+)/ { g = h / 0.0\n h = g % 0 }\n",
+	"gauge g\n/(\\d+)/ { g = 0 / 0 }\n", "gauge g\n/(\\d+)/ { g = 0.0 / 0.0 }\n", "gauge g\n/(\\d+)/ { g = 2 ** (1 / 0.0) }\n", "gauge g\n/(\\d+)/ { g = $1 / 0.0 / 0.0 }\n",
 	// extreme numeric literals wherever the grammar takes a number: anything sized or indexed by
 	// a literal of the source must survive the largest values the lexer accepts
 	"counter c by k limit 9223372036854775807\n/(\\w+)/ { c[$1]++ }\n", "counter c by k limit 1000000000000000\n/(\\w+)/ { c[$1]++ }\n",
